@@ -57,6 +57,11 @@ Section C03.
                         with eq_refl => conj eq_refl eq_refl end).
   Qed.
 
+  (* ... and the transpose is again a well-formed operator (chain-compatible operands in the reversed
+     composition, equal structures in the transposed sum, validated block containers) *)
+  Theorem transpose_well_formed : forall e : op K, wfo e = true -> sym_square e = true -> wfo (transpose e) = true.
+  Proof. exact (transpose_wf_l K). Qed.
+
   (* A.T.T denotes A (wrappers as .T creates them; re-created objects act through their data) *)
   Theorem transpose_involutive : oid_facts leafsem ->
     forall e, canonical e = true -> forall x, den (transpose (transpose e)) x = den e x.
@@ -107,12 +112,30 @@ Theorem table_transpose_is_adjoint : forall n (m : matrix) x y,
   Forall (fun r => List.length r = n) m -> List.length x = n ->
   dot (matvec m x) y = dot x (matvec (transpose_m m n) y).
 Proof. exact matvec_transpose_adjoint. Qed.
+(* ... lifted through flatten/unflatten: a leaf acting through a table matrix m (rows of the input size,
+   as many rows as the output size) and a leaf acting through transpose_m m are adjoint on pytrees *)
+Theorem table_leaf_transpose_is_adjoint : forall m si so x y fx gy, matrix_ok si so m ->
+  apply_matrix m si so x = Some fx -> apply_matrix (transpose_m m (struct_size si)) so si y = Some gy ->
+  xinner fx y = xinner x gy.
+Proof. exact apply_matrix_adjoint. Qed.
+(* ... hence the generic lazy transposes (TransposeOperator, ReshapeTransposeOperator,
+   ToastObservationMatrixTransposeOperator) that transpose() creates around a primitive which acts
+   through a measured matrix are adjoint to it in the executable model, for any table *)
+Theorem fresh_lazy_transpose_is_adjoint : forall tb w j c si so p m,
+  (w = WTranspose \/ w = WReshapeT \/ w = WObsT) ->
+  lookup tb (wrap_key j p) = Some m ->
+  matrix_ok (in_struct (Prim j c si so p : xop)) (out_struct (Prim j c si so p : xop)) m ->
+  (forall x, leafsem tb (Prim j c si so p) x =
+             apply_matrix m (in_struct (Prim j c si so p : xop)) (out_struct (Prim j c si so p : xop)) x) ->
+  adjoint k0 Qcplus Qcmult (leafsem tb (Prim j c si so p)) (leafsem tb (Wrap fresh w (Prim j c si so p))).
+Proof. exact exec_fresh_lazy_transpose_adjoint. Qed.
 Print Assumptions transpose_adjoint.
 Print Assumptions transpose_in_domain.
 Print Assumptions adjoint_of_composition.
 Print Assumptions adjoint_symmetric.
 Print Assumptions inner_splits.
 Print Assumptions transpose_structs.
+Print Assumptions transpose_well_formed.
 Print Assumptions transpose_involutive.
 Print Assumptions transpose_of_lazy_is_operand.
 Print Assumptions lazy_transpose_twice_is_self.
@@ -125,6 +148,8 @@ Print Assumptions exec_leaf_facts.
 Print Assumptions exec_transpose_is_adjoint.
 Print Assumptions exec_identity_facts.
 Print Assumptions table_transpose_is_adjoint.
+Print Assumptions table_leaf_transpose_is_adjoint.
+Print Assumptions fresh_lazy_transpose_is_adjoint.
 
 (* non-vacuity: a block-diagonal of (rotation @ half-wave plate) and a scaled rotation, over Qc: both
    sides of the adjoint identity are defined and equal; the guard, well-formedness and the
